@@ -142,10 +142,11 @@ class ModbusTransactionManager(object):
                                 response_pdu_size = response_pdu_size * 2
                             if response_pdu_size:
                                 expected_response_length = self._calculate_response_length(response_pdu_size)
-                    if request.unit_id in self._no_response_devices:
-                        full = True
-                    else:
-                        full = False
+                    # the reply is always read header first: reading the
+                    # expected length in one go (as was done for units that
+                    # did not answer the previous request) cannot size an
+                    # exception reply and then waits for the read timeout
+                    full = False
                     c_str = str(self.client)
                     datagram = "modbusudpclient" in c_str.lower().strip()
                     if datagram:
